@@ -20,7 +20,7 @@ from ..bits import provenance
 from ..poly import Poly, le, lt, eq
 from ..terms import Terms, reify, plain, match, V, ANY, show, subterms, \
     alternatives, one_level, chunked, chunk_index, concat_parts, mk_cmp, \
-    is_none, method_calls
+    is_none, method_calls, stores
 from ..util import calls_in, qual, returns_of, bind
 
 MOD = "rig.machine_control.boot"
@@ -603,6 +603,58 @@ def r3_pack_fields(program, rep):
 r3_pack_fields.helper_aware = True
 
 
+def r1_controller_forwarding(program, rep):
+    """MachineController.boot hands the caller's keywords to boot.boot() as
+    they are: an sv_overrides dictionary stays one argument (its entries
+    are names of system variables, a different name space from boot()'s own
+    parameters such as boot_delay)."""
+    MCB = "rig.machine_control.machine_controller:MachineController.boot"
+    fn = program.get(MCB)
+    inst = qual(fn)
+    T = Terms(fn)
+    if fn.args.kwarg is None:
+        raise AnalysisError("MachineController.boot: no **keywords")
+    KW = ("param", fn.args.kwarg.arg)
+    cs = [c for c in ast.walk(fn) if isinstance(c, ast.Call) and
+          unparse(c.func) in ("boot.boot", "boot")]
+    if len(cs) != 1:
+        raise AnalysisError("MachineController.boot: the call of boot.boot")
+    n = T.cfg.node_containing(cs[0])
+    stars = [plain(T.term(k.value, n)) for k in cs[0].keywords
+             if k.arg is None]
+    ok = stars == [KW]
+    flattened = None
+    for n_, c_, recv, args in method_calls(T, ["update", "pop", "clear",
+                                               "popitem"]):
+        if plain(recv) != KW:
+            continue
+        if c_.func.attr == "update" and args and any(
+                st_[0] in ("call", "callv", "get", "item") and any(
+                    x == KW for x in subterms(st_)) for st_ in subterms(
+                        plain(args[0]))):
+            flattened = c_
+        elif c_.func.attr in ("clear", "popitem"):
+            raise AnalysisError("MachineController.boot: the keywords are "
+                                "modified before they are handed on")
+    for n_, st, base, key, val in stores(T):
+        if plain(base) == KW:
+            raise AnalysisError("MachineController.boot: the keywords are "
+                                "modified before they are handed on")
+    if not ok and flattened is None:
+        raise AnalysisError("MachineController.boot: what is passed to "
+                            "boot.boot as **keywords is not the method's "
+                            "own keyword dictionary")
+    rep.check(flattened is None, "C20-R1", inst, "the caller's keywords "
+              "(sv_overrides among them, as one argument) are handed to "
+              "boot.boot unchanged", construct="controller forwarding",
+              node=flattened or cs[0],
+              fail="entries taken out of one of the keywords (sv_overrides) "
+                   "are merged into the keyword dictionary itself: a system "
+                   "variable named like a parameter of boot() (boot_delay) "
+                   "is taken for that parameter and never reaches the "
+                   "configuration area")
+
+
 def r4_packet(program, folder, rep):
     fn = program.get(MOD + ":boot_packet")
     inst = qual(fn)
@@ -727,6 +779,7 @@ def check(program, rep):
     program.module(MOD)
     folder = Folder(program)
     rep.guard("C20-R1", r1_effects, program, rep)
+    rep.guard("C20-R1", r1_controller_forwarding, program, rep)
     rep.guard("C20-R2", r2_sequence, program, folder, rep)
     rep.guard("C20-R3", r3_splice, program, folder, rep)
     rep.guard("C20-R3", r3_pack_fields, program, rep)
